@@ -150,6 +150,9 @@ inductive DwarfErr where
 inductive GenOut (R : Type) where
   | ok (ra : Nat) (regs : R)
   | err (e : DwarfErr)
+  /-- A panic inside the uncacheable path (only reachable in the PE interpreter, in
+  pe-unwind-info's unchecked arithmetic). -/
+  | panic (s : Site)
 
 /-- `eval_cfa_rule` given the architecture's `DwarfUnwindRegs::get`. -/
 def evalCfa (get : DReg → Option Nat) : CfaRule → Option Nat
